@@ -37,5 +37,26 @@ int main(void)
 	P("LF_SIZEOF_UINT", sizeof(unsigned int));
 	P("LF_TRUE", QB_TRUE);
 	P("LF_FALSE", QB_FALSE);
+	P("LF_LONG_MAX", LONG_MAX);
+#ifdef BUILDING_IN_PLACE
+	P("LF_BUILDING_IN_PLACE", 1);
+#else
+	P("LF_BUILDING_IN_PLACE", 0);
+#endif
+	{
+		/* the priority names %p prints, and the size of the buffer qb_log_format_set expands into */
+		int k;
+		printf("Require Import List.\nImport ListNotations.\nOpen Scope Z_scope.\n");
+		printf("Definition LF_PRIO_NAMES : list (list Z) := [");
+		for (k = 0; k <= LOG_TRACE; k++) {
+			const char *n = qb_log_priority2str((uint8_t)k);
+			printf("%s[", k ? "; " : "");
+			for (; *n; n++) {
+				printf("%d%s", (unsigned char)*n, n[1] ? "; " : "");
+			}
+			printf("]");
+		}
+		printf("].\n");
+	}
 	return 0;
 }
